@@ -7,7 +7,8 @@ import props, kani_engine
 kani_engine.run_set = lambda res, names, **kw: []      # no Kani
 props.finish_k = lambda *a, **k: None
 pid = sys.argv[1]
-res = Result(pid + "_tonly", "quick", 1)
+tier = os.environ.get("VERIF_TIER", "quick")
+res = Result(pid + "_tonly", tier, int(os.environ.get("VERIF_SEED", "1")))
 props.CHECKS[pid](res)
 for v in res.violations:
     pass
